@@ -25,9 +25,25 @@ func Gen(t *rapid.T) *Case {
 		if !h.Async {
 			h.Nest = rapid.IntRange(0, 5).Draw(t, "nest") == 0
 		}
+		h.Seq = rapid.IntRange(0, 3).Draw(t, "seq") == 0
+		h.Yield = rapid.IntRange(0, 2).Draw(t, "yield")
 		c.Handlers = append(c.Handlers, h)
 	}
+	// a nested publish of the same type into a synchronous Sequential handler is the documented self-deadlock
+	for _, h := range c.Handlers {
+		if h.Seq && !h.Async {
+			for i := range c.Handlers {
+				c.Handlers[i].Nest = false
+			}
+		}
+	}
+	if rapid.IntRange(0, 2).Draw(t, "conc") == 0 {
+		c.Conc = rapid.IntRange(2, 4).Draw(t, "nconc")
+	}
 	np := rapid.IntRange(1, 4).Draw(t, "np")
+	if c.Conc > 1 {
+		np = rapid.IntRange(c.Conc, 8).Draw(t, "npc")
+	}
 	for i := 0; i < np; i++ {
 		p := Pub{Mode: rapid.SampledFrom([]string{"plain", "values", "values", "values", "cancelled"}).Draw(t, "mode")}
 		if p.Mode != "plain" {
